@@ -268,7 +268,7 @@ theorem C02_rejected_batch_executes_nothing (cfg : Config) (xs : List Json) (ctx
   · cases hr : BatchRequest.fromJson (.arr xs) with
     | ok b => exact absurd ⟨b, hr⟩ h
     | raised e => exact ⟨freeText, by simp [dispatch, Json.isArr, hr]⟩
-  · exact ⟨.str "batch too large", by simp [dispatch, Json.isArr, hb, hs]⟩
+  · exact ⟨freeText, by simp [dispatch, Json.isArr, hb, hs]⟩
 
 /-- Duplicate call ids make a batch invalid: it is then rejected as a whole. -/
 theorem C02_duplicate_ids_rejected (xs : List Json) (rs : List Request)
